@@ -799,7 +799,7 @@ Definition zrow (css : list (list (cur * val))) (j : nat) := mapM (fun l => nth_
 Definition zrow_before (css : list (list (cur * val))) (j : nat) :=
   mapM (fun l => match j with O => None | S k => nth_error l k end) css.
 
-Fixpoint minlen (css : list (list (cur * val))) : nat :=
+Fixpoint minlen {A} (css : list (list A)) : nat :=
   match css with
   | [] => 0
   | l :: r => match r with [] => length l | _ => Nat.min (length l) (minlen r) end
@@ -810,7 +810,7 @@ Definition zip_chain (css : list (list (cur * val))) : list (cur * val) :=
   map (fun j => match zrow css j with Some row => zip_item row | None => (CPos 0, VInt 0) end)
       (seq 0 (minlen css)).
 
-Lemma lt_minlen css j : css <> [] -> ((j < minlen css)%nat <-> Forall (fun l => (j < length l)%nat) css).
+Lemma lt_minlen {A} (css : list (list A)) j : css <> [] -> ((j < minlen css)%nat <-> Forall (fun l => (j < length l)%nat) css).
 Proof.
   induction css as [|l r IH]; [congruence|]. intros _. destruct r as [|l2 r].
   - simpl. split; [intros; constructor; auto | intros H; now inversion H].
@@ -939,7 +939,7 @@ Proof.
   unfold zlen. f_equal. lia.
 Qed.
 
-Lemma zip_minlen_ok f us css : Forall2 (fun u l => item_len_of f u = OVal (zlen l)) us css ->
+Lemma zip_minlen_ok f us (css : list (list (cur * val))) : Forall2 (fun u l => item_len_of f u = OVal (zlen l)) us css ->
   forall m, zip_minlen (item_len_of f) us m =
     OVal (match css, m with
           | [], None => 0 | [], Some x => x
@@ -1560,4 +1560,42 @@ Proof.
     + tauto.
     + rewrite IH. split; intros [H|H]; auto; left; congruence.
     + rewrite IH. split; [auto|]. intros [H|H]; [discriminate|auto].
+Qed.
+
+(* ------------------------------------------------------------------ Zip: len and get *)
+Definition zip_rows (vss : list (list val)) : list val :=
+  map (fun j => VTup (map (fun vs => nth j vs dv) vss)) (seq 0 (minlen vss)).
+
+Lemma zip_len_rest_ok us (vss : list (list val)) : Forall2 (fun u vs => it_len R u = OVal (zlen vs)) us vss ->
+  forall m, zip_len_rest (it_len R) us m =
+    OVal (match vss with [] => m | _ :: _ => Z.min m (Z.of_nat (minlen vss)) end).
+Proof.
+  induction 1 as [|u vs us vss Hu Hrest IH]; intros m; [reflexivity|].
+  cbn [zip_len_rest]. rewrite Hu. cbn [bind]. rewrite IH. f_equal. unfold zlen.
+  destruct vss as [|vs2 vss]; cbn [minlen]; zb; try lia;
+    try (change (minlen (vs :: vs2 :: vss)) with (Nat.min (length vs) (minlen (vs2 :: vss)))); lia.
+Qed.
+
+Lemma zip_gets_ok us vss j : Forall2 (fun u vs => it_get R u (Z.of_nat j) = OVal (nth j vs dv)) us vss ->
+  zip_gets (fun u' => it_get R u' (Z.of_nat j)) us = OVal (map (fun vs => nth j vs dv) vss).
+Proof.
+  induction 1 as [|u vs us vss Hu Hrest IH]; [reflexivity|].
+  cbn [zip_gets]. rewrite Hu. cbn [bind]. now rewrite IH.
+Qed.
+
+Lemma lg_zip us vss : us <> [] -> Forall2 lg us vss -> lg (IZip us) (zip_rows vss).
+Proof.
+  intros Hne H. assert (Hvne : vss <> []) by (destruct H; congruence). split.
+  - unfold zip_rows, zlen. rewrite map_length, seq_length.
+    destruct H as [|u vs us vss [Hl _] Hrest]; [congruence|]. cbn [it_len]. rewrite Hl. cbn [bind].
+    rewrite (zip_len_rest_ok us vss).
+    + f_equal. unfold zlen. destruct vss as [|vs2 vss]; cbn [minlen]; [reflexivity|].
+      change (minlen (vs :: vs2 :: vss)) with (Nat.min (length vs) (minlen (vs2 :: vss))). lia.
+    + eapply Forall2_impl; [|exact Hrest]. now intros a b [Ha _].
+  - intros j Hj. unfold zip_rows in *. rewrite map_length, seq_length in Hj.
+    cbn [it_get]. rewrite (zip_gets_ok us vss j).
+    + cbn [bind]. f_equal. symmetry. apply nth_error_nth. rewrite nth_error_map, seq_nth_error by auto. reflexivity.
+    + apply (lt_minlen vss j Hvne) in Hj. clear Hne Hvne. induction H as [|u vs us vss [_ Hg] Hrest IH]; constructor.
+      * inversion Hj; subst. now apply Hg.
+      * inversion Hj; subst. now apply IH.
 Qed.
